@@ -4,5 +4,5 @@ LEVEL = "other"
 
 def check(rep, tier):
     from contracts import rules_exact, core_outgrads
-    core_outgrads.run(rep, tier)
-    rules_exact.run(rep, tier, rules_exact.CLAUSE_PROPS["C11"], which="index")
+    rep.run(core_outgrads.run, rep, tier)
+    rep.run(rules_exact.run, rep, tier, rules_exact.CLAUSE_PROPS["C11"], which="index")
